@@ -18,6 +18,7 @@ let close_output (bytes : n list) = g_outputs := !g_outputs @ [bytes]; out ("out
 let cmd_exp (t : string list) =
   match t with
   | "new" :: rest -> let (v, _) = parse_v rest in g_x := Some (x_new v); g_outputs := []; g_pre := Some v; g_hops := []; out "ok"
+  | ["addout"; h] -> g_outputs := !g_outputs @ [if h = "-" then [] else bytes_of_hex h]; out "ok"
   | _ ->
   match !g_x with None -> out "? no exporter" | Some x ->
   match t with
